@@ -58,7 +58,7 @@ def validate_traces(ctx, path, np_max):
     raise vlib.Infra("trace validation failed unexpectedly:\n" + "\n".join(r.lines[-30:]))
 
 
-def run_schedules(ctx, cases, tag):
+def run_schedules(ctx, cases, tag, depth=0):
     trace = os.path.join(ctx.scratch, "trace-%s.ndjson" % tag)
     racelog = os.path.join(ctx.scratch, "race-%s" % tag)
     path = ctx.write_cases("c14-%s.ndjson" % tag, cases)
@@ -69,6 +69,16 @@ def run_schedules(ctx, cases, tag):
     if not os.path.exists(out):
         raise vlib.Infra("vcheck (race build) failed rc=%s: %s" % (p.returncode, (p.stderr or p.stdout)[-3000:]))
     res = json.load(open(out))
+    # a reported hang leaves goroutines blocked: the process stops after that schedule; the remaining
+    # schedules run in new processes (at most a few times: every hang costs its 15 s timeout)
+    at = res.get("aborted_at", -1)
+    if at >= 0 and at + 1 < len(cases) and depth < 3:
+        more, _ = run_schedules(ctx, cases[at + 1:], tag + "r", depth + 1)
+        res["evaluations"] += more["evaluations"]
+        res["nontrivial"] += more["nontrivial"]
+        res["violations"] += more.get("violations", [])
+        for k, v in more.get("counters", {}).items():
+            res.setdefault("counters", {})[k] = res.get("counters", {}).get(k, 0) + v
     return res, trace
 
 
@@ -118,7 +128,7 @@ def run(ctx):
             c = dict(s)
             c["scenario"] = scen
             c["split"] = rnd.randint(1, 5)
-            c["rot"] = rnd.randint(0, 5)
+            c["rot"] = rnd.randint(0, 9)
             cases.append(c)
     if q:
         cases = cases[:420]
@@ -146,16 +156,25 @@ def run(ctx):
     for v in viols:
         seen.setdefault(v["key"], v)
     known = vlib.load_known(ctx.prop)
+    nconf = 0
     for key, v in seen.items():
-        r2, t2 = run_schedules(ctx, [v["case"]], "confirm%d" % len(ctx.violations))
-        ok = any(x["key"] == key for x in r2.get("violations", []))
-        if not ok and key.startswith("c14/trace-rejected"):
-            ok = validate_traces(ctx, t2, 4) is not None
-        if not ok and key.startswith("c14/data-race"):
-            # the detector reports each racing pair once per process; a fresh process re-reports it
-            ok = any(x["key"].startswith("c14/data-race") for x in r2.get("violations", []))
+        ok = False
+        # the schedule fixes the order of the gate steps only; code between gates runs freely, so a
+        # genuinely racy failure may need more than one fresh process to show again
+        for attempt in range(4):
+            nconf += 1
+            r2, t2 = run_schedules(ctx, [v["case"]], "confirm%d" % nconf)
+            ok = any(x["key"] == key for x in r2.get("violations", []))
+            if not ok and key.startswith("c14/trace-rejected"):
+                ok = validate_traces(ctx, t2, 4) is not None
+            if not ok and key.startswith("c14/data-race"):
+                # the detector reports each racing pair once per process; a fresh process re-reports it
+                ok = any(x["key"].startswith("c14/data-race") for x in r2.get("violations", []))
+            if ok:
+                break
         if not ok:
-            raise vlib.Infra("violation %s not reproduced in a fresh process: %s" % (key, v["detail"]))
+            ctx.unreproduced.append("violation %s not reproduced in a fresh process (4 attempts): %s" % (key, v["detail"][:600]))
+            continue
         if key in known:
             ctx.known_hits.append((key, known[key]))
         else:
